@@ -1298,7 +1298,7 @@ fn noise_line(rng: &mut Rng) -> String {
         4 => "uci".into(),
         5 => "register later".into(),
         6 => "stop".into(),
-        _ => "isready".into(),
+        _ => "ucinewgame".into(),
     }
 }
 
@@ -1426,6 +1426,16 @@ pub fn gen_go(rng: &mut Rng, root: &Pos, kind: u64) -> GoSpec {
             if rng.chance(1, 3) {
                 g.wtime = Some(*rng.pick(times));
                 g.btime = Some(*rng.pick(times));
+            }
+            // parameters that are no limits in this engine, next to real ones
+            if rng.chance(1, 5) {
+                g.nodes = Some(1 + rng.below(100_000));
+            }
+            if rng.chance(1, 5) {
+                g.mate = Some(1 + rng.below(5));
+            }
+            if rng.chance(1, 5) {
+                g.movestogo = Some(1 + rng.below(40));
             }
         }
     }
